@@ -120,18 +120,20 @@ Definition lz_parse_header_orig (src : list Z) : option (Z * list Z) * list Z :=
       end
   end.
 
-(* The repaired header parse (repo-patches: F6).  The magic bytes are fetched with plain read()
-   calls (up to four bytes).  Nothing available = clean end of input; after at least one complete
-   member, bytes that are not the magic are trailing data; everything else must be a valid header.
-   Ok (Some (dict, rest)) | Ok None-with-rest (end of stream) | Err. *)
+(* The repaired header parse (repo-patches: F6).  The magic bytes are fetched with read_fully (up
+   to four bytes).  Nothing available = clean end of input; bytes that are not (a prefix of) the
+   magic are an error for the first member and trailing data after a complete member; a proper
+   prefix of the magic at the end of the input is a truncated header; everything after the magic
+   must be a valid header.  Ok (Some dict, rest) | Ok (None, rest) = end of stream | Err. *)
 Definition lz_parse_header_fixed (first_member : bool) (src : list Z) : outcome (option Z * list Z) :=
   let magic := firstn 4 src in
   let r1 := skipn 4 src in
   match magic with
   | [] => Ok (None, r1)
   | _ =>
-      if negb (lz_bytes_eqb magic LZIP_MAGIC) then
+      if negb (lz_bytes_eqb magic (firstn (length magic) LZIP_MAGIC)) then
         (if first_member then Err E_INVALID_DATA else Ok (None, r1))
+      else if (length magic <? 4)%nat then Err E_UNEXPECTED_EOF
       else
       match r1 with
       | [] => Err E_UNEXPECTED_EOF
@@ -297,3 +299,11 @@ Definition lzip_payload_dec (dict : Z) (src : list Z) : outcome (list Z * list Z
 
 Definition lz_decode_c (fx : lzfix) (src : list Z) : outcome (list Z * list Z) :=
   lz_decode lzip_payload_dec fx src.
+
+(* entry points for the driver *)
+Definition lz_write_entry (dict : Z) (ms : option Z) (parts payloads : list (list Z)) : outcome (list Z) :=
+  lz_write (mkLzopts dict ms) parts payloads.
+Definition lz_member_sizes_entry (dict : Z) (ms : option Z) (parts : list (list Z)) : outcome (list Z) :=
+  let o := lzw_new (mkLzopts dict ms) in
+  do members <- lz_members_of (lo_member_size o) parts;
+  Ok (map (fun b => zlen b) members).
